@@ -3,6 +3,7 @@
 // pointers.  All state is thread_local and lock-free (a mutex in a stub would add
 // happens-before edges and could hide a library race from ThreadSanitizer).
 #pragma once
+#include <sanitizer/asan_interface.h>
 #include <polyseed.h>
 #include <utf8proc.h>
 #include <sched.h>
@@ -45,6 +46,12 @@ struct Kit {
     std::vector<MzCall> mz; MzMode mz_mode = MZ_WIPE; uint64_t mz_calls = 0; bool mz_log = true;
     // --- allocator
     std::map<void*, Block> live; uint64_t alloc_calls = 0, alloc_failed = 0, free_calls = 0, serial = 0;
+    // Freed blocks are kept (poisoned under ASan, so a use after free is still seen) and the most recently freed one of the right size
+    // is handed out again, as glibc's tcache does: "the caller's variable still holds the address the next seed will get" happens
+    // in every build, not only without a quarantine.
+    bool recycle = true; std::vector<std::pair<void*, size_t>> pool; uint64_t recycled = 0;
+    void drop_pool() { for (auto& b : pool) { ASAN_UNPOISON_MEMORY_REGION(b.first, b.second); free(b.first); } pool.clear(); }
+    Kit() = default; Kit(const Kit&) = delete; Kit& operator=(const Kit&) = delete; ~Kit() { drop_pool(); }
     uint64_t fail_mask = 0; int fail_pos = 0;       // bit k set -> the k-th request after arming fails (k < 64)
     bool fail_all = false; bool foreign_ok = false; bool track = true;   // track=false: the matching free is libc's, so the ledger cannot follow the blocks   // foreign_ok: no allocator injected, so the injected free legitimately receives libc blocks
     uint8_t garbage = 0xA7;
@@ -62,6 +69,7 @@ struct Kit {
     }
     void reset_all() {
         reset_logs(); rand_bytes.clear(); rand_pos = 0; rand_echo = false; rand_left.clear(); clock = 1700000000ull; clock_seq.clear(); kdf_mode = KDF_MIX; memset(kdf_fixed, 0, 32); kdf_key_salt = 0;
+        drop_pool(); recycle = true;
         mz_mode = MZ_WIPE; mz_log = true; fail_mask = 0; fail_pos = 0; fail_all = false; foreign_ok = false; track = true; garbage = 0xA7; lenient = false; norm_passthrough = false; yield_mode = 0;
         // live blocks are NOT dropped: they belong to seeds still held by the test
     }
@@ -91,6 +99,9 @@ template <int S> void f_randbytes(void* out, size_t n) {
 template <int S> uint64_t f_time(void) { StubScope sc_; Kit& k = kit(S); maybe_yield(k); uint64_t v = k.clock_seq.empty() ? k.clock : k.clock_seq[k.time_calls < k.clock_seq.size() ? k.time_calls : k.clock_seq.size() - 1]; k.time_calls++; if (k.clock_given.size() < 16) k.clock_given.push_back(v); return v; }
 template <int S> void f_pbkdf2(const uint8_t* pw, size_t pwlen, const uint8_t* salt, size_t saltlen, uint64_t it, uint8_t* key, size_t keylen) {
     StubScope sc_; Kit& k = kit(S); maybe_yield(k);
+    /* PBKDF2 XOR-accumulates its blocks: like such implementations the stub clears the output before it reads password and
+       salt, so a library that passes overlapping buffers gets what a real KDF would give, not a tolerant copy */
+    if (k.kdf_mode != KDF_NOTOUCH && keylen <= 4096) memset(key, 0, keylen);
     KdfCall c; c.pwlen = pwlen; c.saltlen = saltlen; c.iterations = it; c.key = key; c.keylen = keylen; c.pw_ptr = pw;
     c.pw.assign(pw, pw + (pwlen < 4096 ? pwlen : 4096)); c.salt.assign(salt, salt + (saltlen < 4096 ? saltlen : 4096));
     kdf_fill(k, pw, pwlen, salt, saltlen, key, keylen);
@@ -105,7 +116,9 @@ template <int S> void* f_alloc(size_t n) {
     StubScope sc_; Kit& k = kit(S); maybe_yield(k); k.alloc_calls++;
     bool fail = k.fail_all || (k.fail_pos < 64 && ((k.fail_mask >> k.fail_pos) & 1)); k.fail_pos++;
     if (fail) { k.alloc_failed++; return nullptr; }
-    void* p = malloc(n); if (!p) abort();
+    void* p = nullptr;
+    if (k.recycle && k.track && !k.pool.empty() && k.pool.back().second == n) { p = k.pool.back().first; k.pool.pop_back(); ASAN_UNPOISON_MEMORY_REGION(p, n); k.recycled++; }
+    else { p = malloc(n); if (!p) abort(); }
     memset(p, k.garbage, n); // fresh memory is never zero
     if (k.track) k.live[p] = Block{n, ++k.serial};
     return p;
@@ -121,12 +134,19 @@ template <int S> void f_free(void* p) {
     Freed f; f.ptr = p; f.size = it->second.size; f.content.assign((uint8_t*)p, (uint8_t*)p + f.size); f.mz_index = k.mz.size();
     k.freed.push_back(std::move(f));
     memset(p, 0xDD, it->second.size);
-    k.live.erase(it); free(p);
+    size_t n = it->second.size; k.live.erase(it);
+    if (!k.recycle) { free(p); return; }
+    k.pool.push_back({p, n}); ASAN_POISON_MEMORY_REGION(p, n);
+    if (k.pool.size() > 4) { auto b = k.pool.front(); k.pool.erase(k.pool.begin()); ASAN_UNPOISON_MEMORY_REGION(b.first, b.second); free(b.first); }
 }
 
 // Real Unicode normalisation through utf8proc, truncated at a code-point boundary.
+// Like the project's own test stubs (strncpy over the whole buffer) it owns all POLYSEED_STR_SIZE bytes of `out`, and like
+// many real wrappers it initialises the output BEFORE it reads the input: a library that hands it overlapping input and
+// output buffers gets the result such an implementation gives (the input is cut at the overlap), never a tolerant copy.
 inline size_t norm_impl(Kit& k, const char* str, polyseed_str out, int opts) {
     const size_t cap = POLYSEED_STR_SIZE - 1;
+    memset(out, 0, POLYSEED_STR_SIZE);
     if (k.norm_passthrough) { size_t n = strlen(str); if (n > cap) { n = cap; k.truncated = true; } memcpy(out, str, n); out[n] = 0; return n; }
     utf8proc_uint8_t* o = nullptr;
     utf8proc_ssize_t r = utf8proc_map((const utf8proc_uint8_t*)str, 0, &o, (utf8proc_option_t)(UTF8PROC_NULLTERM | UTF8PROC_STABLE | opts));
